@@ -129,6 +129,10 @@ Section Assign.
     end.
 End Assign.
 
+(* a bump allocator with alignment [A] (shmem.c) — also the concrete allocator of the non-vacuity examples *)
+Definition align_up (A n : N) : N := ((n + A - 1) / A) * A.
+Definition bump (A : N) : allocator := {| ast := N; anext := fun c n => (c, c + align_up A n) |}.
+
 (* the allocator contract: an address handed out for a non-empty request was not
    in use before and is in use afterwards; nothing in use is ever handed out again *)
 Record alloc_spec (al : allocator) (owns : ast al -> N -> Prop) : Prop := {
